@@ -148,21 +148,33 @@ fn read_varint(b: &[u8], pos: &mut usize) -> Option<u64> {
     Some(v)
 }
 
-/// payload of the single HEADERS frame in `b`; `-` when nothing was written; `?..` otherwise
+/// payload of the single HEADERS frame in `b` (frames of other types - grease - are skipped); `-` when no HEADERS frame was
+/// written; `?..` otherwise
 fn headers_payload(b: &[u8]) -> String {
-    if b.is_empty() {
-        return "-".into();
-    }
     let mut pos = 0;
-    let ty = read_varint(b, &mut pos);
-    let len = read_varint(b, &mut pos);
-    match (ty, len) {
-        (Some(1), Some(l)) if pos + l as usize == b.len() => {
-            let p = &b[pos..];
-            if p.is_empty() {
+    let mut found: Vec<Vec<u8>> = Vec::new();
+    while pos < b.len() {
+        let ty = read_varint(b, &mut pos);
+        let len = read_varint(b, &mut pos);
+        match (ty, len) {
+            (Some(t), Some(l)) if pos + l as usize <= b.len() => {
+                if t == 1 {
+                    found.push(b[pos..pos + l as usize].to_vec());
+                } else if t < 0x21 || (t - 0x21) % 0x1f != 0 {
+                    return format!("?{}", hex(b));
+                }
+                pos += l as usize;
+            }
+            _ => return format!("?{}", hex(b)),
+        }
+    }
+    match found.len() {
+        0 => "-".into(),
+        1 => {
+            if found[0].is_empty() {
                 "e".into()
             } else {
-                hex(p)
+                hex(&found[0])
             }
         }
         _ => format!("?{}", hex(b)),
@@ -294,6 +306,10 @@ struct Flags {
     pend: bool,    // recv_trailers is first polled before the FIN has arrived (Pending: "save the trailers")
     chunks: bool,  // the HEADERS frame arrives in several chunks
     second: bool,  // the message under test travels on the second request stream of the connection
+    data: bool,    // a DATA frame sits between the first HEADERS and the trailers (recv_data yields it first)
+    after: bool,   // after the outcome, one more minimal message is exchanged on the next stream: `next=<outcome>`
+    pchunk: bool,  // the peer's control stream (SETTINGS) arrives one octet at a time
+    grease: bool,  // the endpoint is built with send_grease(true) (the default) instead of false
 }
 
 fn parse_flags(kind: &str) -> Flags {
@@ -309,10 +325,24 @@ fn parse_flags(kind: &str) -> Flags {
             (_, "pend") => f.pend = true,
             (_, "chunks") => f.chunks = true,
             (_, "second") => f.second = true,
+            (_, "data") => f.data = true,
+            (_, "after") => f.after = true,
+            (_, "pchunk") => f.pchunk = true,
+            (_, "grease") => f.grease = true,
             _ => panic!("driver: kind {}", kind),
         }
     }
     f
+}
+
+fn deliver_control(w: &Shared, id: u64, bytes: &[u8], one_by_one: bool) {
+    if one_by_one {
+        for b in bytes {
+            chunk_ev(w, id, &[*b]);
+        }
+    } else {
+        chunk_ev(w, id, bytes);
+    }
 }
 
 fn deliver(w: &Shared, id: u64, bytes: &[u8], chunks: bool) {
@@ -331,11 +361,26 @@ macro_rules! read_trailers {
     ($s:expr, $fl:expr, $w:expr, $id:expr, $cancel:expr) => {{
         let mut verdict: Option<String> = None;
         if !$fl.nodata {
-            match cancellable($s.recv_data(), &$cancel).await {
-                Some(Ok(None)) => {}
-                Some(Ok(Some(_))) => verdict = Some("unexpected-data".into()),
-                Some(Err(e)) => verdict = Some(format!("data-err:{}", stream_err(&e))),
-                None => verdict = Some("hang".into()),
+            let mut pieces = 0;
+            loop {
+                match cancellable($s.recv_data(), &$cancel).await {
+                    Some(Ok(None)) => break,
+                    Some(Ok(Some(_))) => {
+                        pieces += 1;
+                        if !$fl.data || pieces > 8 {
+                            verdict = Some("unexpected-data".into());
+                            break;
+                        }
+                    }
+                    Some(Err(e)) => {
+                        verdict = Some(format!("data-err:{}", stream_err(&e)));
+                        break;
+                    }
+                    None => {
+                        verdict = Some("hang".into());
+                        break;
+                    }
+                }
             }
         }
         match verdict {
@@ -371,14 +416,14 @@ macro_rules! read_trailers {
 
 async fn rx_srv(w: Shared, fl: Flags, l: u64, p: Option<Vec<u8>>, section: Vec<u8>, cancel: Rc<Cell<bool>>) -> String {
     let mut b = h3::server::builder();
-    b.send_grease(false).max_field_section_size(l);
+    b.send_grease(fl.grease).max_field_section_size(l);
     let mut conn: h3::server::Connection<SimConn, Bytes> = match cancellable(b.build(SimConn { world: w.clone() }), &cancel).await {
         Some(Ok(c)) => c,
         _ => return "build-err".into(),
     };
     if let Some(pp) = p {
         ev(&w, "U2".into());
-        chunk_ev(&w, 2, &pp);
+        deliver_control(&w, 2, &pp, fl.pchunk);
         let _ = poll_once(conn.accept()).await;
     }
     let mut id = 0u64;
@@ -397,6 +442,9 @@ async fn rx_srv(w: Shared, fl: Flags, l: u64, p: Option<Vec<u8>>, section: Vec<u
     ev(&w, format!("B{}", id));
     if fl.trl {
         chunk_ev(&w, id, &frame(1, &unhex(MIN_REQUEST)));
+        if fl.data {
+            chunk_ev(&w, id, &frame(0, b"xy"));
+        }
     }
     deliver(&w, id, &frame(1, &section), fl.chunks);
     if !fl.pend {
@@ -427,6 +475,27 @@ async fn rx_srv(w: Shared, fl: Flags, l: u64, p: Option<Vec<u8>>, section: Vec<u
         Some(Err(e)) => format!("err:{}", conn_err(&e)),
         None => "hang".into(),
     };
+    let mut res = res;
+    if fl.after {
+        let nid = id + 4;
+        ev(&w, format!("B{}", nid));
+        chunk_ev(&w, nid, &frame(1, &unhex(MIN_REQUEST)));
+        ev(&w, format!("{}:F", nid));
+        let next = match cancellable(conn.accept(), &cancel).await {
+            Some(Ok(Some(resolver))) => match cancellable(resolver.resolve_request(), &cancel).await {
+                Some(Ok((_r, s2))) => {
+                    std::mem::forget(s2);
+                    "ok".to_string()
+                }
+                Some(Err(e)) => format!("err:{}", stream_err(&e)),
+                None => "hang".into(),
+            },
+            Some(Ok(None)) => "accept-none".into(),
+            Some(Err(e)) => format!("err:{}", conn_err(&e)),
+            None => "hang".into(),
+        };
+        res = format!("{} next={}", res, next);
+    }
     // let the connection driver act on what the stream reported (a connection error is closed there)
     let _ = poll_once(conn.accept()).await;
     std::mem::forget(conn);
@@ -435,7 +504,7 @@ async fn rx_srv(w: Shared, fl: Flags, l: u64, p: Option<Vec<u8>>, section: Vec<u
 
 async fn rx_cli(w: Shared, fl: Flags, l: u64, p: Option<Vec<u8>>, section: Vec<u8>, cancel: Rc<Cell<bool>>) -> String {
     let mut b = h3::client::builder();
-    b.send_grease(false).max_field_section_size(l);
+    b.send_grease(fl.grease).max_field_section_size(l);
     let (mut conn, mut sr): (h3::client::Connection<CConn, Bytes>, h3::client::SendRequest<COpener, Bytes>) =
         match cancellable(b.build(CConn(SimConn { world: w.clone() })), &cancel).await {
             Some(Ok(c)) => c,
@@ -444,7 +513,7 @@ async fn rx_cli(w: Shared, fl: Flags, l: u64, p: Option<Vec<u8>>, section: Vec<u
     let early_clone = if fl.clone0 { Some(sr.clone()) } else { None };
     if let Some(pp) = p {
         ev(&w, "U3".into());
-        chunk_ev(&w, 3, &pp);
+        deliver_control(&w, 3, &pp, fl.pchunk);
         let _ = poll_once(poll_fn(|cx| conn.poll_close(cx))).await;
     }
     let mut sender = match early_clone {
@@ -480,6 +549,9 @@ async fn rx_cli(w: Shared, fl: Flags, l: u64, p: Option<Vec<u8>>, section: Vec<u
     let id = s.id().into_inner();
     if fl.trl {
         chunk_ev(&w, id, &frame(1, &unhex(MIN_RESPONSE)));
+        if fl.data {
+            chunk_ev(&w, id, &frame(0, b"xy"));
+        }
     }
     deliver(&w, id, &frame(1, &section), fl.chunks);
     if !(fl.trl && fl.pend) {
@@ -511,6 +583,28 @@ async fn rx_cli(w: Shared, fl: Flags, l: u64, p: Option<Vec<u8>>, section: Vec<u
         std::mem::forget(s);
         r
     };
+    let mut res = res;
+    if fl.after {
+        let req = http::Request::builder().method("GET").uri("https://a/").body(()).unwrap();
+        let next = match cancellable(sr.send_request(req), &cancel).await {
+            Some(Ok(mut s2)) => {
+                let _ = cancellable(s2.finish(), &cancel).await;
+                let id2 = s2.id().into_inner();
+                chunk_ev(&w, id2, &frame(1, &unhex(MIN_RESPONSE)));
+                ev(&w, format!("{}:F", id2));
+                let r = match cancellable(s2.recv_response(), &cancel).await {
+                    Some(Ok(_)) => "ok".to_string(),
+                    Some(Err(e)) => format!("err:{}", stream_err(&e)),
+                    None => "hang".into(),
+                };
+                std::mem::forget(s2);
+                r
+            }
+            Some(Err(e)) => format!("send-err:{}", stream_err(&e)),
+            None => "hang".into(),
+        };
+        res = format!("{} next={}", res, next);
+    }
     let _ = poll_once(poll_fn(|cx| conn.poll_close(cx))).await;
     std::mem::forget(conn);
     std::mem::forget(sr);
@@ -967,10 +1061,17 @@ fn main() {
                 let g = w.lock().unwrap();
                 let all = g.streams.get(&id).map(|s| s.tx.clone()).unwrap_or_default();
                 if *role == "cli" {
+                    // skip everything up to and including the request's own HEADERS frame
                     let mut pos = 0;
-                    let _ = read_varint(&all, &mut pos);
-                    let len = read_varint(&all, &mut pos).unwrap_or(0) as usize;
-                    headers_payload(&all[(pos + len).min(all.len())..])
+                    loop {
+                        let ty = read_varint(&all, &mut pos);
+                        let len = read_varint(&all, &mut pos).unwrap_or(0) as usize;
+                        pos = (pos + len).min(all.len());
+                        if ty == Some(1) || ty.is_none() || pos >= all.len() {
+                            break;
+                        }
+                    }
+                    headers_payload(&all[pos..])
                 } else {
                     headers_payload(&all)
                 }
